@@ -2,7 +2,7 @@
    (transiently for single hand-offs, for a packet every time it is seen, for one stream permanently, for a stretch of
    consecutive hand-offs).  Both pacers.  Every call a next writer receives is recorded - the failing ones too - with
    the packet as it arrived and what the writer returned. *)
-From IV Require Export Base.Word Model.PacerQueue Model.PacerFail Check.C17Check.
+From IV Require Export Base.Word Model.PacerQueue Model.PacerFail Check.C17Check Check.C17bCheck.
 From IV Require Import Proofs.PacerFailProofs.
 From Coq Require Import ZifyBool.
 
@@ -164,4 +164,67 @@ Proof.
       { apply forallb_forall. intros x Hx. rewrite Forall_forall in Hf. specialize (Hf x Hx). lia. }
       rewrite C in Ef. discriminate.
   - split; [discriminate|]. intros (H & _). lia.
+Qed.
+
+(* ---------------- envelope over the REAL bits handed downstream (set c17env) ----------------
+   An env_case carries the limiter calls (AllowN with the bits debited) and, separately, the sizes the next writer
+   measured: 8 * (real marshalled header size + payload length) of every packet it received.  The k-th packet is
+   handed over in the loop iteration of the k-th granted AllowN, at its time stamp: the real-bits event list is the
+   call list with the k-th granted amount replaced by the k-th measured size.
+   codes: 22 = the real bits released exceed burst_max + sum(rate*dt) under the tight oracle env_ok2 (the one proved
+               to accept the exact limiter on every call sequence: C17b_envelope_tight_oracle_sound_for_exact_limiter)
+          21 = a packet was handed over for fewer debited bits than it has (undercharged); envelope not exceeded in
+               this run
+          23 = debit and real size differ otherwise (overcharged / count differs) *)
+Fixpoint subst_sizes (evs : list (Z * Z * Z * Z)) (sizes : list Z) : list (Z * Z * Z * Z) :=
+  match evs with
+  | [] => []
+  | (k, t, a, b) :: tl =>
+      if (k =? 0) && (b =? 1) then
+        match sizes with
+        | s :: st => (k, t, s, b) :: subst_sizes tl st
+        | [] => (k, t, a, b) :: subst_sizes tl []
+        end
+      else (k, t, a, b) :: subst_sizes tl sizes
+  end.
+
+Fixpoint undercharged (gr sizes : list Z) : bool :=
+  match gr, sizes with
+  | g :: gt, s :: st => (g <? s) || undercharged gt st
+  | _, _ => false
+  end.
+
+Definition env_real (c : env_case) : nat :=
+  let '(r0, b0, t0, evs, sizes) := c in
+  if negb (env_ok2 5000000 r0 (burst_max b0 evs) t0 0 0 (subst_sizes evs sizes)) then 22%nat
+  else if undercharged (grants evs) sizes then 21%nat
+  else if negb (list_eqb Z.eqb (grants evs) sizes) then 23%nat
+  else 0%nat.
+
+Definition env_real_failures (cases : list env_case) : list (nat * nat) :=
+  let fix go (l : list env_case) (i : nat) :=
+    match l with
+    | [] => []
+    | c :: tl => match env_real c with O => go tl (S i) | code => (i, code) :: go tl (S i) end
+    end in go cases 0%nat.
+
+(* when every debit equals the real size the real-bits events ARE the limiter calls: the oracle is env_ok2 on the
+   calls, which C17b_envelope_tight_oracle_sound_for_exact_limiter proves sound *)
+Lemma grants_cons k t a b tl :
+  grants ((k, t, a, b) :: tl) = (if (k =? 0) && (b =? 1) then [a] else []) ++ grants tl.
+Proof. reflexivity. Qed.
+
+Lemma subst_sizes_id evs : subst_sizes evs (grants evs) = evs.
+Proof.
+  induction evs as [|[[[k t] a] b] tl IH]; [reflexivity|].
+  rewrite grants_cons. cbn [subst_sizes]. destruct ((k =? 0) && (b =? 1)); cbn [app]; rewrite IH; reflexivity.
+Qed.
+
+Lemma env_real_ok r0 b0 t0 evs sizes : env_real (r0, b0, t0, evs, sizes) = 0%nat ->
+  grants evs = sizes /\ env_ok2 5000000 r0 (burst_max b0 evs) t0 0 0 evs = true.
+Proof.
+  unfold env_real. destruct (env_ok2 _ _ _ _ _ _ (subst_sizes evs sizes)) eqn:E; cbn [negb]; [|discriminate].
+  destruct (undercharged _ _); [discriminate|].
+  destruct (list_eqb Z.eqb (grants evs) sizes) eqn:L; cbn [negb]; [|discriminate].
+  intros _. apply list_eqb_Z_eq in L. subst sizes. rewrite subst_sizes_id in E. split; [reflexivity|exact E].
 Qed.
